@@ -1,4 +1,5 @@
 import StatimeModel.Lemmas.ServoL
+import StatimeModel.Lemmas.ServoUnarmed
 import StatimeModel.Model.Port
 import StatimeModel.Generated.ServoConsts
 /-
@@ -10,8 +11,9 @@ bound, every history of calls and every pattern of clock refusals. Comparisons a
 Duration conversions are the bit-level definitions of Model/F64.lean.
 
 What is *not* proved: that the estimator never produces a NaN (frequency commands are "finite unless
-NaN"), and anything about the basic filter's frequency, which has no bound to clamp to. Those rest on
-the bit-exact correspondence and the oracle of the `filt` stream.
+NaN"), anything about the basic filter's frequency, which has no bound to clamp to, and that a servo which
+has not programmed a frequency yet never *steps* (it provably programs no frequency). Those rest on
+the bit-exact correspondence and the oracles of the `filt` and `kports` streams.
 -/
 namespace Statime.C13
 open Statime Statime.Servo
@@ -147,6 +149,32 @@ theorem fresh_filter_is_silent (A : Arith) (c : Cfg) (hg : GoodBound c.mf) (k : 
     cases hm : k.demobilize A clk with
     | none => rfl
     | some cs => exact (demobilize_spec A k clk cs hgk hm).2 en
+
+/-- **A servo that has not programmed a frequency yet never programs one unless it is handed a Sync or Delay_Resp
+offset** (which only the Slave port hands to its servo: C08.non_slave_port_feeds_peer_delay_only). Along every history
+of peer delay results, filter update timers and a final demobilisation, for every rounding arithmetic and every
+pattern of clock refusals, no call issues a frequency command.
+
+Partial with respect to "issues no command at all": `steer` would still *step* if the servo's own offset estimate
+exceeded the step threshold. That estimate starts at zero and no offset is ever absorbed on such a history, so it
+moves only if the arithmetic makes `0 · x` non-zero; the theorem is for every arithmetic and therefore cannot exclude
+it. With the real binary64 operations this is sampled (stream `kports`: no clock call of any kind from a port that
+is not Slave). -/
+theorem unarmed_servo_never_programs_a_frequency_partial (A : Arith) (k : Kalman) (hc : k.cur = none) (ops : List KOp)
+    (hq : ∀ op ∈ ops, Quiet op) : ∀ cs ∈ krun A (some k) ops, NoFreq cs :=
+  krun_unarmed A ops (some k) (fun k' h => by cases h; exact hc) hq
+
+/-- the servo a port installs when it leaves the slave state is such a servo -/
+theorem fresh_servo_never_programs_a_frequency_partial (A : Arith) (c : Cfg) (k : Kalman) (h : Kalman.new A c = some k)
+    (ops : List KOp) (hq : ∀ op ∈ ops, Quiet op) : ∀ cs ∈ krun A (some k) ops, NoFreq cs :=
+  unarmed_servo_never_programs_a_frequency_partial A k (new_cfg A c k h).2 ops hq
+
+/-- a history the hypotheses admit: peer delay results, an update, the demobilisation -/
+example : ∀ op ∈ ([.meas ⟨5, none, none, some 100, none, none⟩ ⟨7, false, false⟩, .upd ⟨8, false, false⟩,
+    .demob ⟨9, false, false⟩] : List KOp), Quiet op := by
+  intro op h
+  simp only [List.mem_cons, List.not_mem_nil, or_false] at h
+  rcases h with h | h | h <;> subst h <;> simp [Quiet, PeerOnly]
 
 /-- Port level: a port that leaves the slave state (or enters or leaves Faulty) demobilises its filter
 exactly once; any other transition leaves the filter alone. -/
